@@ -9,7 +9,7 @@ git apply "$SD/patch.diff" || { echo "PATCH DOES NOT APPLY"; exit 2; }
 echo "== build (both feature sets)"; cargo build --offline 2>&1 | tail -1; cargo build --offline --no-default-features 2>&1 | tail -1
 echo "== suite with change"; cargo test --offline 2>&1 | grep "test result" 
 cp "$SD/demo.rs" tests/seed_demo.rs
-echo "== demo with change (expect FAIL)"; cargo test --offline --test seed_demo 2>&1 | grep -E "test result|panicked" | head -5
+echo "== demo with change (expect FAIL)"; cargo test --offline --test seed_demo 2>&1 | grep -E "^test result"
 git checkout -q -- src
 echo "== demo without change (expect PASS)"; cargo test --offline --test seed_demo 2>&1 | grep "test result"
 rm -f tests/seed_demo.rs
